@@ -158,3 +158,17 @@ pub fn call_function(f: &Arc<Function>, args: Vec<Variable>, monitor: bool) -> R
     };
     exec_code(&code, monitor)
 }
+
+/// parse + exec_unscoped into a fresh safe interpreter, which is handed back so that the host
+/// can look at the top-level names afterwards (also after a run-time error)
+pub fn run_program_keep(text: &str) -> (Outcome, Interpreter<'static>) {
+    run::default_budget();
+    let mut interp = safe_interpreter();
+    let code = match run::parse_guarded(&interp, text) {
+        Ok(Ok(code)) => code,
+        Ok(Err(kind)) => return (Outcome::Rejected(kind), interp),
+        Err(o) => return (o, interp),
+    };
+    let outcome = run::exec_unscoped_guarded(&code, &mut interp);
+    (outcome, interp)
+}
